@@ -193,6 +193,12 @@ class World:
             elif k == "ghost":
                 self.ghosts.append(op[1])
                 a.broker.route_invocation(op[1])
+            elif k == "forget":
+                # the housekeeping of a runner purged ONE invocation (what `auto_purge` does for a finished one whose retention is over):
+                # its orchestrator record is gone while it may still be queued, awaited, stored
+                i = self._i(op[1])
+                if i:
+                    o.clean_up_invocation(i)
             elif k == "purge":
                 getattr(a, op[1]).purge()
             else:
@@ -214,6 +220,8 @@ def scripted_histories() -> dict[str, list[list]]:
         ["fail", 1, "rA", "boom"], ["claim", "rB", 1], ["status", 3, "RUNNING", "rB"], ["retry", 3, "rB"],
         ["incretry", 2], ["heartbeat", ["rA"], True], ["stale", "rOld"], ["call", "add", [8, 9]], ["claim", "rOld", 1],
         ["oldpending", 8], ["call", "add", [9, 1]], ["claim", "rOld", 1], ["status", 9, "RUNNING", "rOld"], ["oldpending", 9],
+        ["call", "add", [10, 1]], ["call", "add", [11, 1]], ["call", "add", [12, 1]], ["forget", 12], ["wait", 11, [12]], ["wait", 10, [11]],
+        ["call", "add", [13, 1]],       # (the last invocation of the world stays a plain REGISTERED one)
     ]
     return {
         "long-queue": [["call", "add", [i, i]] for i in range(7)],
@@ -264,8 +272,10 @@ def random_history(rng, n: int) -> list[list]:
             ops.append(["heartbeat", rng.sample(runners, rng.randrange(1, 3)), rng.random() < 0.5])
         elif r < 0.795:
             ops.append(["stale", rng.choice(["rOld", "rC"])])
-        elif r < 0.80:
+        elif r < 0.798:
             ops.append(["oldpending", k])
+        elif r < 0.80:
+            ops.append(["forget", k])
         elif r < 0.81:
             ops.append(["atomic", run])
         elif r < 0.84:
